@@ -299,6 +299,9 @@ class UnscentedKalmanFilter(KalmanFilter):
         # STEP 0: Re-sample the sigma points around predicted (sampled) state estimate
         if self._resample:
             self.sigma_points = self.generateSigmaPoints(self.pred_x, self.pred_p)
+            # The re-sampled points are centered on their 0th column (the predicted state), so the
+            #   state residuals must be re-drawn with them to stay paired with `sigma_y_res`
+            self.sigma_x_res = self.sigma_points - self.sigma_points[:, :1]
 
         # STEP 1: Calculate the Measurement Matrix (H)
         self.calculateMeasurementMatrix(observations)
